@@ -39,7 +39,11 @@ CONSTANT MaxAtt        \* configured number of transmit attempts (ACK_TIMEOUTS)
 ErrExceeded == 81      \* ASH error code 0x51: exceeded maximum ACK timeout count
 
 NoCur == [id |-> 0, num |-> 0, pl |-> 0, att |-> 0, wake |-> "none"]
-HInit == [tx |-> 0, rx |-> 0, st |-> "CONN", cur |-> NoCur, q |-> <<>>]
+(* wf:   the serial transport will raise out of the next write of a DATA frame (a transient serial error)                              *)
+(* roll: what this host does with the frame number of a FIRST transmission whose write raised: given back (TRUE) or spent (FALSE, the *)
+(*       code as it stands).  Nothing of that frame is on the line, so either is safe (AshLink is checked for both); the number of a  *)
+(*       RETRANSMISSION whose write raised stays spent - the first copy may have been accepted.                                        *)
+HInit == [tx |-> 0, rx |-> 0, st |-> "CONN", cur |-> NoCur, q |-> <<>>, wf |-> FALSE, roll |-> FALSE]
 HInitAt(a, b) == [HInit EXCEPT !.tx = a, !.rx = b]
 
 R(h, out) == [h |-> h, out |-> out]
@@ -67,6 +71,8 @@ Done(i, r) == [o |-> "done", id |-> i, res |-> r]
 Begin(h, id, pl) ==
     IF h.st = "FAILED"
     THEN R(h, <<Done(id, "ncpfail")>>)                    \* failed-state gate, window released again
+    ELSE IF h.wf                                          \* the write raises: nothing is on the line, the error is the caller's
+    THEN R([h EXCEPT !.tx = IF h.roll THEN h.tx ELSE (h.tx + 1) % 8, !.wf = FALSE], <<Done(id, "writeerr")>>)
     ELSE R([h EXCEPT !.tx = (h.tx + 1) % 8,
                      !.cur = [id |-> id, num |-> h.tx, pl |-> pl, att |-> 0, wake |-> "none"]],
            <<W(Data(h.tx, 0, h.rx, pl))>>)
@@ -103,6 +109,9 @@ RecvFn(h0, f) ==
                        !.cur.wake = IF h.cur.id # 0 /\ h.cur.wake = "none" THEN "failed" ELSE @],
              <<UpReset(f.code)>>)
 
+(* ---- the transport is about to fail one DATA write ------------------- *)
+ArmFn(h) == [h EXCEPT !.wf = TRUE]
+
 (* ---- ACK timer fires (asyncio.timeout cancels the waiting task) -------- *)
 TimerEnabled(h) == h.cur.id # 0 /\ h.cur.wake # "timeout"
 TimerFn(h) == R([h EXCEPT !.cur.wake = "timeout"], <<>>)
@@ -120,6 +129,8 @@ ResumeFn(h) ==
                   <<UpReset(ErrExceeded), Done(c.id, IF c.wake = "naked" THEN "nak" ELSE "timeout")>>)
            ELSE IF h.st = "FAILED"
            THEN R([h EXCEPT !.cur = NoCur], <<Done(c.id, "ncpfail")>>)
+           ELSE IF h.wf                              \* the retransmission's write raises: the number stays spent (the first
+           THEN R([h EXCEPT !.cur = NoCur, !.wf = FALSE], <<Done(c.id, "writeerr")>>)   \* copy may have been accepted)
            ELSE R([h EXCEPT !.cur.att = c.att + 1, !.cur.wake = "none"],
                   <<W(Data(c.num, 1, h.rx, c.pl))>>)
 
